@@ -4,6 +4,7 @@ use verif_hooks::push_bytes;
 
 impl Handshake {
     pub fn verif_fingerprint(&self, out: &mut Vec<u8>) {
+        #[cfg(not(feature = "verif-lax"))]
         let Handshake {
             current_stage,
             peer_type,
@@ -11,6 +12,16 @@ impl Handshake {
             input_buffer,
             sent_p1,
             sent_digest,
+        } = self;
+        #[cfg(feature = "verif-lax")]
+        let Handshake {
+            current_stage,
+            peer_type,
+            command_byte,
+            input_buffer,
+            sent_p1,
+            sent_digest,
+            ..
         } = self;
 
         out.push(match *current_stage {
